@@ -62,6 +62,10 @@ func c11() {
 		}
 		cc := &vlib.ChildCase{Policy: pol, Flags: pl.flags, NNP: pl.nnp, Unprivileged: pl.unpriv, Probes: []vlib.Probe{probe}, NNPCase: &vlib.NNPCase{Mode: pl.mode, GoMaxProcs: []int{0, 1, 2, 4}[i%4], CallerLocked: i%5 == 4, PresetOnMain: i%7 == 5}}
 		cc.Env = vlib.RuntimeKnobsGC[(i/3)%len(vlib.RuntimeKnobsGC)]
+		if i%6 == 1 {
+			cc.GCSpray = 1 + (i/6)%3
+			run.Count("children_with_gc_and_allocation_spray_before_the_seccomp_call", 1)
+		}
 		desc := fmt.Sprintf("case %d: mode=%s unprivileged=%v NoNewPrivs=%v flags=%#x strace=%v", i, pl.mode, pl.unpriv, pl.nnp, pl.flags, pl.strace)
 		res, err := vlib.RunChild(bin, "nnp", cc, pl.strace, 60*time.Second)
 		if err != nil || res.TimedOut || res.Line("done") == nil {
